@@ -202,10 +202,10 @@ P_Restore(v) ==
   /\ gs[v].exists => (gs'[v].subs = gs[v].subs /\ gs'[v].epoch = gs[v].epoch /\ gs'[v].coord = gs[v].coord)
 \* when can a rebuilt group legitimately differ from the live one?  Assignments
 \* depend on the join/leave history as soon as members consume more than one
-\* stream, and heap entries without subscribers (they decide whether a later
-\* StreamDeleted moves the epoch) are not rebuilt.
+\* stream.  (Heap entries without subscribers used to be a second reason - they
+\* were not rebuilt and decide whether a later StreamDeleted moves the epoch;
+\* since a339921 a heap is dropped when its last subscriber leaves.)
 RestoreNeutral(g) ==
   /\ Cardinality(UNION {g.subs[c] : c \in Members(g)}) <= 1
-  /\ DOMAIN g.heap = UNION {g.subs[c] : c \in Members(g)}
 P_Other == \A v \in Servers : gs'[v].exists => Members(gs'[v]) = Members(gs[v])
 =============================================================================
